@@ -381,3 +381,14 @@ _EXTRA15 = {
 }
 for _k, _v in _EXTRA15.items():
     PROPS[_k]['text'] = PROPS[_k]['text'].rstrip() + _v
+
+_EXTRA16 = {
+ 'C03': ' The rectangle list of the fill region is taken after the clip intersection (C03-R18).',
+ 'C11': ' A division by a zero-tested value lies behind the test (C11-R19).',
+ 'C13': ' The REFLECT segment is mirrored from its old bounds (C13-R18).',
+ 'C15': ' The release loops of the region validator start at the first element (C15-R15).',
+ 'C17': ' The single-pixel packers of the glyph fast paths keep every bit (C17-R11 = C02-R16).',
+ 'C19': ' The rectangle list of the fill region is taken after the clip intersection (C19-R17).',
+}
+for _k, _v in _EXTRA16.items():
+    PROPS[_k]['text'] = PROPS[_k]['text'].rstrip() + _v
